@@ -259,25 +259,42 @@ PROCESS_OUTPUT = dict(
         # the retransmission timer runs whenever a frame was sent
         implies(n_moved(old) > 0, self._receiver_ready_poll_handle is not None),
     ],
+    ensures_names=['moved-count'] + [f'{w}-{f}' for f in FIELDS for w in ('unacked', 'waiting')] + WF_NAMES + ['no-stall', 'wire-count', 'wire-tx-seq', 'wire-sar',
+                   'wire-data-count', 'wire-trace-lengths', 'wire-req-seq-final', 'wire-sdu-length', 'ack-piggybacked', 'ack-unchanged-if-nothing-sent', 'retransmission-timer-running'],
     modifies=PO_MOD,
 )
 
 
-def po_inv(self, old, ghost, _i, pdu_to_send):
+def po_inv(self, old, ghost, _i=None, pdu_to_send=None):
+    """loop invariant of _process_output, stated over the two queues and not over the loop's temporaries: n = the
+    number of frames that have joined the unacknowledged ones so far.  It is meant for either shape of the loop:
+    `for pdu in islice(waiting, room): send(pdu)` followed by `waiting = waiting[room:]` (the waiting list is not
+    touched inside the loop; the counter `_i` and the local `pdu_to_send` exist and `_i == n`), and
+    `while waiting and <room>: send(waiting.pop(0))` (no counter: `_i` / `pdu_to_send` are optional parameters; the
+    waiting list is consumed as frames are sent; the window bound is then a clause of the invariant itself, so a loop
+    guard that lets one frame too many through fails `inv-preserved`).  In both shapes the postcondition
+    wf-unacked<=window (part of the representation invariant) is what every caller relies on"""
     a = self._last_acked_tx_seq
+    consumed = _i is None
+    n = len(self._tx_window) - len(old.self._tx_window) if consumed else _i
     return [
-        # (pdu_to_send is not assigned in the loop: it keeps the value the code computed)
-        0 <= _i and _i <= len(old.self._pending_pdus) and _i <= pdu_to_send,
+        0 <= n and n <= len(old.self._pending_pdus) and n == len(self._tx_window) - len(old.self._tx_window),
+        # Core Vol 3 Part A 8.6: never more unacknowledged I-frames than the peer's TxWindow, at every iteration.
+        # (for-shape: the number of iterations is fixed before the loop; pdu_to_send is not assigned in the loop, it
+        #  keeps the value the code computed, and whether that value respects the window is decided by the
+        #  postcondition wf-unacked<=window: with the bound as an invariant clause too, the solvers answer `unknown`
+        #  instead of `sat` for a wrong room computation, and the postcondition is then entailed by the invariant)
+        len(self._tx_window) <= self.peer_tx_window_size if consumed else _i <= pdu_to_send,
         not blocked(self),
-    ] + moved(self, old, _i, False) + [
+    ] + moved(self, old, n, consumed) + [
         numbered(col(self._tx_window, 'tx_seq'), a),
-        numbered(col(self._pending_pdus, 'tx_seq'), a + len(old.self._tx_window)),
+        numbered(col(self._pending_pdus, 'tx_seq'), a + len(old.self._tx_window) + (n if consumed else 0)),
         ghost.iseq == (a + len(self._tx_window)) % 64,
         seqno(self._last_acked_rx_seq),
         wire_wf(ghost),
-    ] + wire(self, old, ghost, _i) + [
-        implies(_i > 0, self._last_acked_rx_seq == self._req_seq_num and self._receiver_ready_poll_handle is not None),
-        implies(_i == 0, self._last_acked_rx_seq == old.self._last_acked_rx_seq),
+    ] + wire(self, old, ghost, n) + [
+        implies(n > 0, self._last_acked_rx_seq == self._req_seq_num and self._receiver_ready_poll_handle is not None),
+        implies(n == 0, self._last_acked_rx_seq == old.self._last_acked_rx_seq),
     ]
 
 
@@ -421,12 +438,19 @@ def on_pdu_post(self, pdu, old, ghost):
     last = sar == END or sar == UNSEG
     data = iframe_data(pdu)
     sf = f_sfunc(pdu)
+    r0 = old.self._req_seq_num
     return [
         # I-frame with the expected sequence number: the receive sequence number advances by one modulo 64, the data
         # it carries extends the SDU being reassembled, a complete SDU is handed to the channel exactly once
         implies(in_seq, self._req_seq_num == (f_tx_seq(pdu) + 1) % 64),
         implies(in_seq and last, ghost.delivered == old.ghost.delivered + [old.self._in_sdu + data] and self._in_sdu == b''),
         implies(in_seq and not last, ghost.delivered == old.ghost.delivered and self._in_sdu == old.self._in_sdu + data),
+        # no acknowledgement is owed when on_pdu returns: "acknowledged" means equal modulo 64 -- the numbers wrap
+        # from 63 to 0, so an order comparison of the two counters is not the test (8.6.5: ReqSeq arithmetic is modulo 64).
+        # Split at the wrap first (each case is linear for the solvers), then the statement in modulo-64 arithmetic
+        implies(in_seq and r0 == 63, self._req_seq_num == 0 and self._last_acked_rx_seq == 0),
+        implies(in_seq and r0 != 63, self._req_seq_num == r0 + 1 and self._last_acked_rx_seq == r0 + 1),
+        implies(in_seq, self._last_acked_rx_seq == (r0 + 1) % 64 and (self._req_seq_num - self._last_acked_rx_seq) % 64 == 0),
         # the frame is acknowledged (an I-frame sent meanwhile would have carried the acknowledgement)
         implies(in_seq and self._req_seq_num != old.self._last_acked_rx_seq and self._req_seq_num != old.self._req_seq_num,
                 len(ghost.sent) >= 1 and ghost.sent[len(ghost.sent) - 1] == sframe_ctrl(RR, 0, self._req_seq_num, 0) and self._last_acked_rx_seq == self._req_seq_num),
@@ -454,6 +478,9 @@ contract(
     # reserved bits of an S-frame's second octet are zero (Core Vol 3 Part A 3.3.2; bumble's encoder writes req_seq < 64)
     requires=lambda self, pdu, ghost: wf(self, ghost) + [implies(is_sframe(pdu), at(pdu, 1) < 64)],
     ensures=on_pdu_post,
+    ensures_names=['in-seq-advances-mod-64', 'complete-sdu-delivered-once', 'segment-appended', 'ack-not-owed-at-wrap-63-to-0', 'ack-not-owed-without-wrap',
+                   'ack-not-owed-mod-64', 'in-seq-acknowledged-by-rr', 'other-frames-leave-rx-state', 'rnr-sets-busy', 'iframe-keeps-busy',
+                   'poll-answered-with-final', 'final-ends-poll-wait'] + WF_NAMES + ['no-stall'],
     raises={IndexError: lambda self, pdu, old, ghost: [len(pdu) < 2, rx_unchanged(self, old, ghost)] + wf(self, ghost)},
     modifies=ON_PDU_MOD,
     uses=USE_ACK + USE_SF,
